@@ -285,6 +285,24 @@ ROUND4 = {
            "TraceBeatgrid!ExtremeOK.",
 }
 
+# round 5 (DESIGN.md 13.21)
+ROUND5 = {
+    "C03": " Round 5: 1.x beat indices at the edges of int32 on both sides of the 32-bit gap field (EngineFormat!FitsGap); twin values "
+           "(+0.0 against -0.0 in corresponding places of two parts of one value).",
+    "C02": " Round 5: the same edge and twin classes as C03.",
+    "C07": " Round 5: names that are SQL LIKE patterns or case variants of each other (driver flag nameset=like).",
+    "C08": " Round 5: the bulk entry point add_tracks(first, last) as action Library!AddTracks; replayed histories with their runs of "
+           "single adds folded into bulk calls whose ranges repeat tracks.",
+    "C10": " Round 5: a one-hour track with its 378 000-entry high-resolution waveform (rows above 1 MB) across reloads.",
+    "C11": " Round 5: calls through handles to removed tracks (every setter, whole-snapshot writes) judged by the stored rows "
+           "(TraceTrackFields!RawSane in TProbe: no per-track row that names no stored track).",
+    "C14": " Round 5: no call - completed, refused or failed - returns with a transaction open on its connection (autocommit state "
+           "after every call).",
+    "C15": " Round 5: the track-level probe battery carries raw rows (RawSane); the drivers' watchdog counts CPU time.",
+    "C16": " Round 5: libraries whose database files another client switched to WAL journal mode; files compared between closed "
+           "states around load + close.",
+}
+
 
 def main():
     props = [json.loads(l) for l in open(os.path.join(VERIF, "properties.jsonl"))]
@@ -297,8 +315,8 @@ def main():
             "evidence_file": "/verif/evidence/%s.json" % pid,
             "replay_cmd_template": "tools/check %s --replay {path}" % pid,
             "engine": "tlc",
-            "level_claimed": {"category": c["category"], "text": c["text"] + ROUND4.get(pid, ""),
-                              "design_ref": c["design"] + (", §13.20" if pid in ROUND4 else "")},
+            "level_claimed": {"category": c["category"], "text": c["text"] + ROUND4.get(pid, "") + ROUND5.get(pid, ""),
+                              "design_ref": c["design"] + (", §13.20" if pid in ROUND4 else "") + (", §13.21" if pid in ROUND5 else "")},
             "level_note": c["note"],
             "technique": c["technique"],
         })
